@@ -589,15 +589,23 @@ def _poses(ctx, prog):
         dens = set()
         idxs = set()
 
+        loop_vars = [x for x in mir.subterms(it[2], lambda y: y[0] == 'fld' and y[2] == '0') if util.loop_source(x) is not None]
+        pose_params = [i for i in range(2, ai.arg_count + 1) if 'Isometry' in ai.local_ty(i)]
+
+        def is_fraction_numerator(n):
+            # i (the loop index), or the difference of the two end poses: the divisions that define the interpolation fraction
+            if any(mir.contains(n, lambda y, v=v: y == v) for v in loop_vars):
+                return True
+            used = {y[1] for y in mir.subterms(n, lambda y: y[0] == 'param')}
+            return len(pose_params) == 2 and set(pose_params) <= used and not mir.contains(n, lambda y: y[0] == 'call' and cname(y[1]).split('::')[-1] in ('norm', 'angle'))
+
         def visit(x):
-            if x[0] == 'bin' and x[1] == 'Div':
+            if x[0] == 'bin' and x[1] == 'Div' and is_fraction_numerator(x[2]):
                 dens.add(uncast(x[3]))
-            if x[0] == 'call' and cname(x[1]).split('::')[-1] == 'div':
+            if x[0] == 'call' and cname(x[1]).split('::')[-1] == 'div' and is_fraction_numerator(x[2]):
                 dens.add(uncast(x[3]))
         mir.walk(it[2], visit)
-        # divisions inside the step count itself (distance / check_step) do not count: drop denominators that occur inside another one
-        outer = {d for d in dens if not any(d != e and mir.contains(e, lambda y, d=d: y == d) for e in dens)}
-        loop_vars = [x for x in mir.subterms(it[2], lambda y: y[0] == 'fld' and y[2] == '0') if util.loop_source(x) is not None]
+        outer = dens
         rng_ok = False
         n_term = None
         if len(outer) == 1 and loop_vars:
